@@ -58,6 +58,9 @@ struct Spec {
 	/// subscription ids (300 characters) that do not fit into max_response_body_size (200): the subscribe call is answered
 	/// with the "response too big" error, so no subscription may come into being
 	long_ids: bool,
+	/// subscription ids are strings that need JSON escapes (quote, backslash, control characters, non-ASCII): whatever the
+	/// id, every notification must carry exactly the id the subscribe call was answered with
+	escape_ids: bool,
 	/// an ordinary call that stays in its handler on this connection from the start until the given instant (ms) - also
 	/// across an unsubscribe, a disconnect or the server stop
 	held_call: Option<(usize, u64)>,
@@ -92,6 +95,166 @@ struct Out {
 	points: usize,
 	trace: Vec<&'static str>,
 	resends: usize,
+}
+
+/// Id provider driven by the harness: hands out the queued ids first (so that an id can be issued again on the same
+/// connection, as the library's own `NoopIdProvider` or a short `RandomStringIdProvider` do); otherwise fresh ids - numbers,
+/// or (escape mode) strings that need JSON escaping.
+#[derive(Debug, Clone, Default)]
+struct HarnessIds {
+	queue: Arc<Mutex<std::collections::VecDeque<jsonrpsee_types::SubscriptionId<'static>>>>,
+	counter: Arc<std::sync::atomic::AtomicU64>,
+	escapes: Option<u64>,
+}
+const ESCAPE_ID_PARTS: [&str; 10] = ["CORP\\nina", "q\"uote", "tab\there", "line\nfeed", "é😀", "back\\\\slash", "nul\u{0}x", "sl/ash", "\\u0041", "\\\""];
+impl HarnessIds {
+	fn escapes(seed: u64) -> Self {
+		HarnessIds { escapes: Some(seed), ..Default::default() }
+	}
+}
+impl jsonrpsee_server::IdProvider for HarnessIds {
+	fn next_id(&self) -> jsonrpsee_types::SubscriptionId<'static> {
+		if let Some(x) = self.queue.lock().unwrap().pop_front() {
+			return x;
+		}
+		let n = self.counter.fetch_add(1, std::sync::atomic::Ordering::SeqCst);
+		match self.escapes {
+			Some(seed) => {
+				let part = ESCAPE_ID_PARTS[((seed ^ n.wrapping_mul(0x9e37_79b9)) % ESCAPE_ID_PARTS.len() as u64) as usize];
+				jsonrpsee_types::SubscriptionId::Str(format!("{part}#{n}").into())
+			}
+			None => jsonrpsee_types::SubscriptionId::Num(1_000_000 + n),
+		}
+	}
+}
+
+/// Directed family: subscription A is unsubscribed (answered `true`) while its handler keeps its sink; the server then
+/// issues A's id again to a new subscription B on the same connection. From the unsubscribe response on, A's sink reports
+/// closed, A's sends fail and nothing of A reaches the peer - B's notifications are B's alone.
+async fn id_reissued_case(seed: u64) -> Out {
+	let mut out = Out::default();
+	let mut r = Rng::new(seed);
+	let reg = Registry::default();
+	let ids = HarnessIds::default();
+	let cfg = ServerConfig::builder().set_message_buffer_capacity(*r.pick(&[2u32, 16, 1024])).max_subscriptions_per_connection(8).set_id_provider(ids.clone()).build();
+	let srv = MemServer::new(cfg, subctl::module(reg.clone()));
+	let Ok(mut ws) = srv.ws().await else {
+		out.violations.push(("setup-failed/ws-connect".into(), "id-reissued scenario".into()));
+		return out;
+	};
+	macro_rules! bad {
+		($sig:expr, $($arg:tt)*) => { out.violations.push(($sig.to_string(), format!($($arg)*))) };
+	}
+	let settle = || tokio::time::sleep(Duration::from_millis(2));
+	let raw = r.chance(1, 4);
+	let (sub, unsub) = if raw { ("sub_raw", "unsub_raw") } else { ("sub", "unsub") };
+	let x: jsonrpsee_types::SubscriptionId<'static> = if r.bool() { jsonrpsee_types::SubscriptionId::Num(7 + r.below(1000)) } else { jsonrpsee_types::SubscriptionId::Str(format!("again-{}", r.below(1000)).into()) };
+	let xv = serde_json::to_value(&x).expect("id");
+	let mut frames: Vec<FrameEv> = Vec::new();
+	macro_rules! drain {
+		() => {{
+			settle().await;
+			for f in ws.try_drain() {
+				if let Some(v) = f.json() {
+					frames.push(FrameEv { ticket: f.ticket, v });
+				}
+			}
+		}};
+	}
+	// A
+	ids.queue.lock().unwrap().push_back(x.clone());
+	let _ = ws.send_text(&json!({"jsonrpc": "2.0", "id": 1, "method": sub, "params": ["a"]}).to_string()).await;
+	settle().await;
+	let Some(ha) = reg.get("a") else {
+		bad!("setup-failed/subscribe", "id-reissued scenario: subscribe A did not reach its handler");
+		return out;
+	};
+	if !matches!(ha.cmd(Cmd::Accept).await.map(|t| t.reply), Some(Reply::Accepted { ref sub_id }) if *sub_id == xv) {
+		bad!("setup-failed/accept", "id-reissued scenario: A was not accepted with id {xv}");
+		return out;
+	}
+	let mut a_seq = 0u64;
+	for _ in 0..r.usize(3) {
+		a_seq += 1;
+		let _ = ha.cmd(Cmd::Send(0, json!({"tag": "a", "seq": a_seq}))).await;
+	}
+	if r.bool() {
+		let _ = ha.cmd(Cmd::CloneSink(0)).await;
+	}
+	drain!();
+	let _ = ws.send_text(&json!({"jsonrpc": "2.0", "id": 2, "method": unsub, "params": [xv]}).to_string()).await;
+	drain!();
+	drain!();
+	let Some(unsub_ticket) = frames.iter().find(|f| f.v["id"] == json!(2) && f.v["result"] == json!(true)).map(|f| f.ticket) else {
+		bad!("setup-failed/unsubscribe", "id-reissued scenario: unsubscribe of A was not answered true");
+		return out;
+	};
+	out.closes += 1;
+	// B gets the same id
+	ids.queue.lock().unwrap().push_back(x.clone());
+	let _ = ws.send_text(&json!({"jsonrpc": "2.0", "id": 3, "method": sub, "params": ["b"]}).to_string()).await;
+	settle().await;
+	let Some(hb) = reg.get("b") else {
+		bad!("setup-failed/subscribe", "id-reissued scenario: subscribe B did not reach its handler");
+		return out;
+	};
+	if !matches!(hb.cmd(Cmd::Accept).await.map(|t| t.reply), Some(Reply::Accepted { ref sub_id }) if *sub_id == xv) {
+		bad!("setup-failed/accept", "id-reissued scenario: B was not accepted with id {xv}");
+		return out;
+	}
+	// interleaved: B sends, A's old sink(s) are asked and used
+	let mut b_sent: Vec<u64> = Vec::new();
+	let mut a_after: Vec<u64> = Vec::new();
+	for k in 0..3 + r.usize(4) {
+		if r.bool() {
+			let seq = 100 + k as u64;
+			if matches!(hb.cmd(Cmd::Send(0, json!({"tag": "b", "seq": seq}))).await.map(|t| t.reply), Some(Reply::Sent(Ok(())))) {
+				b_sent.push(seq);
+				out.sends_ok += 1;
+			} else {
+				bad!("send-failed-while-active/id-issued-again", "B's send of seq {seq} failed although B is active");
+			}
+		} else {
+			let sink = 0;
+			match ha.cmd(Cmd::IsClosed(sink)).await.map(|t| t.reply) {
+				Some(Reply::Closed(true)) => {}
+				other => bad!("sink-not-closed-after-close/unsubscribe/id-issued-again", "A was unsubscribed (true) and its id {xv} issued again to B: A's sink.is_closed() = {other:?}"),
+			}
+			a_seq += 1;
+			a_after.push(a_seq);
+			out.sends_after_close += 1;
+			let cmd = match r.below(3) {
+				0 => Cmd::Send(sink, json!({"tag": "a", "seq": a_seq})),
+				1 => Cmd::TrySend(sink, json!({"tag": "a", "seq": a_seq})),
+				_ => Cmd::SendTimeout(sink, json!({"tag": "a", "seq": a_seq}), 5),
+			};
+			match ha.cmd(cmd).await.map(|t| t.reply) {
+				Some(Reply::Sent(Ok(()))) => bad!("send-after-close-succeeded/unsubscribe/id-issued-again", "A's send of seq {a_seq} returned Ok after A's unsubscribe was answered true (its id {xv} belongs to B now)"),
+				_ => out.sends_failed += 1,
+			}
+		}
+		drain!();
+	}
+	drain!();
+	let after: Vec<&FrameEv> = frames.iter().filter(|f| f.ticket > unsub_ticket && f.v.get("method").is_some()).collect();
+	out.notifications += after.len();
+	for f in &after {
+		if f.v["params"]["result"]["tag"] == json!("a") {
+			bad!("send-after-close-delivered/unsubscribe/id-issued-again", "a notification of the unsubscribed subscription A reached the peer after the unsubscribe response: {}", f.v);
+		}
+		if f.v["params"]["subscription"] != xv {
+			bad!("wrong-subscription-id/notification", "frame {} carries another id than {xv}", f.v);
+		}
+	}
+	let got_b: Vec<u64> = after.iter().filter(|f| f.v["params"]["result"]["tag"] == json!("b")).filter_map(|f| f.v["params"]["result"]["seq"].as_u64()).collect();
+	if got_b != b_sent {
+		bad!("successful-send-lost/connection-open", "B's sends {b_sent:?} returned Ok, the peer received {got_b:?}");
+	}
+	out.history.push(format!("A and B carry id {xv}; A sent {a_after:?} after its unsubscribe, B sent {b_sent:?}; the peer saw {} notification(s) afterwards", after.len()));
+	let _ = ha.cmd_nowait(Cmd::Return(Ret::None));
+	let _ = hb.cmd_nowait(Cmd::Return(Ret::None));
+	settle().await;
+	out
 }
 
 fn gen_spec(seed: u64) -> Spec {
@@ -139,6 +302,7 @@ fn gen_spec(seed: u64) -> Spec {
 		subs,
 		delays: r.chance(2, 3),
 		long_ids: r.chance(1, 10),
+		escape_ids: r.chance(1, 8),
 		held_call: if r.chance(1, 3) { Some((r.usize(conns), r.below(horizon + 10))) } else { None },
 		peer_pause: if r.chance(1, 4) {
 			let from = r.below(8);
@@ -158,6 +322,8 @@ async fn run_spec(spec: &Spec, real_time: bool) -> Out {
 	let mut cfg = ServerConfig::builder().set_message_buffer_capacity(spec.buffer).max_subscriptions_per_connection(64).max_connections(100);
 	if spec.long_ids {
 		cfg = cfg.set_id_provider(jsonrpsee_server::RandomStringIdProvider::new(300)).max_response_body_size(200);
+	} else if spec.escape_ids {
+		cfg = cfg.set_id_provider(HarnessIds::escapes(spec.seed));
 	}
 	let cfg = cfg.build();
 	let mut srv = MemServer::new(cfg, subctl::module(reg.clone()));
@@ -586,6 +752,8 @@ fn record(spec: &Spec, o: Out, ev: &mut Evidence, violations: &mut Vec<Violation
 	ev.count("library_points_reached", o.points as u64);
 	if spec.long_ids {
 		ev.count("histories_with_subscription_ids_above_the_response_limit", 1);
+	} else if spec.escape_ids {
+		ev.count("histories_with_subscription_ids_that_need_json_escapes", 1);
 	}
 	if spec.held_call.is_some() {
 		ev.count("histories_with_an_ordinary_call_held_in_its_handler", 1);
@@ -662,9 +830,13 @@ fn main() {
 	ev.assume("a closing notification sent after an unsubscribe is admissible (the statement only limits it to at most one and to accepted subscriptions)");
 	let mut violations = Vec::new();
 	let replay = ctx.replay.is_some();
+	let mut replay_scenario: Option<String> = None;
+	let mut replay_seed: Option<u64> = None;
 	let seeds: Vec<u64> = if let Some(path) = &ctx.replay {
 		let w: Value = serde_json::from_str(&std::fs::read_to_string(path).expect("replay")).expect("json");
-		vec![w["witness"]["seed"].as_u64().expect("seed")]
+		replay_scenario = w["witness"]["scenario"].as_str().map(|s| s.to_string());
+		replay_seed = w["witness"]["seed"].as_u64();
+		if replay_scenario.is_some() { vec![] } else { vec![w["witness"]["seed"].as_u64().expect("seed")] }
 	} else {
 		(0..ctx.tier.pick(40_000u64, 2_000_000)).map(|i| Rng::fork(ctx.seed, i).next_u64()).collect()
 	};
@@ -688,6 +860,31 @@ fn main() {
 	for (e, v) in results {
 		ev.merge(e);
 		violations.extend(v);
+	}
+	if !replay || replay_scenario.as_deref() == Some("id issued again") {
+		let seeds: Vec<u64> = match (replay, replay_seed) {
+			(true, Some(s)) => vec![s],
+			_ => (0..ctx.tier.pick(400u64, 20_000)).map(|i| Rng::fork(ctx.seed, 66_000_000 + i).next_u64()).collect(),
+		};
+		let res = run_parallel(seeds, |_, s| (s, block_on_virtual(id_reissued_case(s))));
+		for (s, o) in res {
+			ev.eval();
+			ev.count("cases_id_issued_again", 1);
+			ev.count("id_issued_again_sends_on_the_old_sink", o.sends_after_close as u64);
+			ev.count("id_issued_again_notifications_after_the_unsubscribe", o.notifications as u64);
+			if o.notifications > 0 && o.violations.is_empty() {
+				ev.nontrivial(&("id-issued-again", s));
+			}
+			if replay {
+				for h in &o.history {
+					println!("  {h}");
+				}
+				println!("violations: {:?}", o.violations);
+			}
+			for (sig, d) in o.violations {
+				violations.push(Violation::new(sig, d, json!({"scenario": "id issued again", "seed": s})));
+			}
+		}
 	}
 	for p in take_panics() {
 		// accept() panics by design when the response carrying the subscription id exceeds max_response_body_size
